@@ -177,9 +177,16 @@ def build(tier):
                 v2 = sum(v_up[i] * v_dn[i] for i in range(3))
                 P('Stresstrace_n', rel['Stresstrace_n'][0, 0, 0], E * v2 + 3 * p, 'Stresstrace_n == E v^2 + 3p',
                   get=lambda r: r['Stresstrace_n'])
-                P('press_n', rel['press_n'][0, 0, 0], (E * v2 + 3 * p) / 3, 'press_n == S/3')
+                P('press_n', rel['press_n'][0, 0, 0], (E * v2 + 3 * p) / 3, 'press_n == S/3', get=lambda r: r['press_n'])
                 P('trace(anisotropic_press)', sum(gi3[i, j] * an[i, j, 0, 0, 0] for i in range(3) for j in range(3)),
-                  0, 'anisotropic pressure trace-free')
+                  0, 'anisotropic pressure trace-free',
+                  get=lambda r: np.einsum('ij...,ij...->...', r['gammaup3'], r['anisotropic_press_down3_n']))
+                for i in range(3):
+                    for j in range(i, 3):
+                        P(f'anisotropic_press_down3_n[{i},{j}]', an[i, j, 0, 0, 0],
+                          E * v_dn[i] * v_dn[j] + p * ga[i, j] - ga[i, j] * (E * v2 + 3 * p) / 3,
+                          'anisotropic_press_down3_n == S_ij - gamma_ij S/3',
+                          get=lambda r, i=i, j=j: r['anisotropic_press_down3_n'][i, j])
                 sg = oracle.det(ga).sqrt() if hasattr(oracle.det(ga), 'sqrt') else None
                 D = rel['conserved_D'][0, 0, 0]
                 P('conserved_D', D, S.rho0 * W * sg, 'conserved_D == rho0 W sqrt(gamma)',
@@ -314,6 +321,21 @@ def build(tier):
                            group='T given: Ttrace == g^{mn} T_mn', get=lambda r: r['Ttrace']))
             obsT.append(Ob('T:3 press_n - rho_n == Ttrace', 3 * relT['press_n'][0, 0, 0] - relT['rho_n'][0, 0, 0],
                            tr4, ST.pre, group='alternative derivations of the trace agree'))
+            # cosmological constant: quantities that combine matter terms with Lambda, cut at free kinematic scalars
+            relL = ST.run.symbolic_rel()
+            Lam = sym('Lambda_c')
+            relL.Lambda = Lam
+
+            def cell(nm):
+                arr = np.empty((1, 1, 1), dtype=object)
+                arr[0, 0, 0] = sym(nm)
+                return arr
+            for k_ in ('shear2', 'theta', 'rho'):
+                relL.data[k_] = cell('cut_' + k_)
+            sh_, th_, rh_ = (relL.data[k_][0, 0, 0] for k_ in ('shear2', 'theta', 'rho'))
+            obsT.append(Ob('Lambda:s_RicciS_u', relL['s_RicciS_u'][0, 0, 0],
+                           2 * (sh_ - th_ * th_ / 3 + Lam + relL.kappa * rh_), ST.pre,
+                           group='Lambda != 0: s_RicciS_u == 2 sigma^2 - (2/3) theta^2 + 2 Lambda + 2 kappa rho (cut at shear2, theta, rho)'))
         blocks.append(dict(name='Tgiven', setup=ST, run=ST.run, obs=obsT, ctx=cT, samplers=[ST.sampler()]))
 
         # Ttrace branch taken when Tdown4 is NOT yet in data (fresh instance, fluid inputs)
